@@ -177,7 +177,13 @@ func (j *c14Job) RunUnit(i int, c *run.Ctx) {
 		cases = append(cases, pcase{p, r, pr.F})
 	}
 	m := modeFloat
-	for di := 0; di < j.ds.n(); di++ {
+	// prefixes of two or more steps: the documents of <=4 nodes plus the wide and big ones (the
+	// thorough tier's 5-node documents are used for the shorter prefixes)
+	docIdx := j.ds.indices(&gen.Ladder{})
+	if len(u.prefix) >= 2 {
+		docIdx = j.ds.indices(&gen.Ladder{SmallDocs: true})
+	}
+	for _, di := range docIdx {
 		for _, pc := range cases {
 			c.Tick()
 			doc := j.ds.docs[m][di]
@@ -236,7 +242,7 @@ func init() {
 		},
 		Bounds: map[string]string{
 			"quick":    "navigation prefixes of <=2 steps over the 16-step alphabet followed by every sequence of 1..2 functions (1..3 directly after $) out of 8 (doubling, identity, failing, nil-returning filter functions; list, count, failing, re-entrant aggregates); function chains of 1..2 inside filter operands (12 operand paths, three of them with a nested filter that refers to '$', x 3 filter forms) after 5 prefixes; every document of <=4 nodes",
-			"thorough": "prefixes of <=2 steps with 1..3 functions, 3 steps with one function; operand chains as in quick; every document of <=5 nodes",
+			"thorough": "prefixes of <=2 steps with 1..3 functions, 3 steps with one function; operand chains as in quick; every document of <=5 nodes for prefixes of <=1 step, of <=4 nodes plus the wide and big documents for longer prefixes",
 		},
 		New: newC14,
 		Replay: func(cs map[string]interface{}) (bool, string) {
